@@ -7,6 +7,26 @@
             start of the request is PROP, or KNOWN singleflight_stale_latest when the model
             reproduces it and its trigger flag (some request joined a call in flight) is raised *)
 
+(* Cross-check of extraction: with ORACLE_DUMP=<file> one line per server / datastore history is
+   appended with what the EXTRACTED model computed: per operation the result class and a checksum
+   of the answer; bin/coqreplay_c17.py recomputes the same numbers inside Coq (vm_compute). *)
+let dump_chan = match Sys.getenv_opt "ORACLE_DUMP" with
+  | Some p when p <> "" -> Some (open_out_gen [Open_append; Open_creat] 0o644 p)
+  | _ -> None
+let chk_add acc x = (acc * 31 + x + 7) mod 1000003
+let chk_bytes acc (b : n list) = List.fold_left (fun a x -> chk_add a (int_of_n x)) acc b
+let chk_blist acc l = List.fold_left (fun a b -> chk_add (chk_bytes a b) 256) acc l
+(* the content encoding is opaque to the model: long encodings enter the checksum (and the Coq
+   replay) as their first 40 and last 8 bytes *)
+let surrogate (e : n list) =
+  let n = List.length e in
+  if n <= 48 then e else List.filteri (fun i _ -> i < 40 || i >= n - 8) e
+let chk_body b = chk_add (chk_add (chk_bytes 0 (surrogate b.tb_enc)) (int_of_n b.tb_variant)) (int_of_n b.tb_size mod 1000)
+let dump id nums =
+  match dump_chan with
+  | Some ch -> output_string ch (id ^ " " ^ String.concat " " (List.map string_of_int nums) ^ "\n"); flush ch
+  | None -> ()
+
 let hex l = hex_of_string (coq_to_bytes l)
 let short s = if String.length s > 20 then String.sub s 0 20 ^ ".." else s
 let str l = coq_to_bytes l
@@ -45,7 +65,7 @@ let parse_sop v =
     OP (as_cbytes s, ido, as_int cls, as_int variant, as_cbytes hid)
   | _ -> failwith "sop"
 
-let server_case backend obs =
+let server_case cid backend obs =
   (* ids: accepted writes carry the real (rank-canonical) id; the id drawn by a rejected write is
      not observable: it gets a placeholder between its neighbours so that the hypothesis talks
      about the observable ids only *)
@@ -59,6 +79,12 @@ let server_case backend obs =
     | OL (s, _, _) -> MList s
     | OP (s, ido, _, _, _) -> MResolve (s, ido)) obs in
   let tr = if backend = 0 then t_mem_trace h else t_sql_trace h in
+  dump cid (List.concat_map (fun (_, out) -> match out with
+    | MWritten id -> [0; chk_bytes 0 id]
+    | MModel (id, b) -> [1; chk_add (chk_bytes 0 id) (chk_body b)]
+    | MIds ids -> [2; chk_blist 0 ids]
+    | MResolved (id, b) -> [3; chk_add (chk_bytes 0 id) (chk_body b)]
+    | MErr e -> [10 + merr_class e; 0]) tr);
   let rec cmp i tr obs =
     match tr, obs with
     | [], [] -> None
@@ -115,7 +141,7 @@ let server_case backend obs =
     | Some t -> "DIFF " ^ t
     | None -> if t_ids_increasing h then "OK" else "DIFF observed model ids are not increasing in creation order (ULID-monotonic hypothesis violated)"
 
-let raw_case backend ops =
+let raw_case cid backend ops =
   let parsed = List.map (fun v ->
     match as_list v with
     | [I "0"; s; id; b; cls] -> (BWrite (as_cbytes s, as_cbytes id, mk_body b), `W (as_int cls))
@@ -125,6 +151,10 @@ let raw_case backend ops =
     | _ -> failwith "rawop") ops in
   let h = List.map fst parsed in
   let tr = if backend = 0 then t_mem_btrace h else t_sql_btrace h in
+  dump cid (List.concat_map (fun (_, out) -> match out with
+    | BOk -> [0; 0] | BErr -> [1; 0] | BNotFound -> [2; 0]
+    | BModel (id, b) -> [3; chk_add (chk_bytes 0 id) (chk_body b)]
+    | BIds ids -> [4; chk_blist 0 ids]) tr);
   let rec cmp i tr obs =
     match tr, obs with
     | [], [] -> None
@@ -185,10 +215,10 @@ let concurrent2_case served1 served2 =
   else "PROP cross-store: a model-less request was evaluated against another store's latest model (or failed) while that store's latest-model lookup was in flight"
     ^ (match diff with Some t -> "; " ^ t | None -> "")
 
-let f _id vs =
+let f cid vs =
   match vs with
-  | [I "1"; backend; _combo; ops] -> server_case (as_int backend) (List.map parse_sop (as_list ops))
-  | [I "0"; backend; _combo; ops] -> raw_case (as_int backend) (as_list ops)
+  | [I "1"; backend; _combo; ops] -> server_case cid (as_int backend) (List.map parse_sop (as_list ops))
+  | [I "0"; backend; _combo; ops] -> raw_case cid (as_int backend) (as_list ops)
   | [I "2"; _backend; _combo; joined; s1; s2] -> concurrent_case (as_bool joined) (as_int s1) (as_int s2)
   | [I "3"; _backend; _combo; _done_before; s1; s2] -> concurrent2_case (as_int s1) (as_int s2)
   | _ -> "DIFF malformed-record"
